@@ -735,6 +735,8 @@ func FromV3(doc3 *openapi3.T) (*openapi2.T, error) {
 
 	isHTTPS := false
 	isHTTP := false
+	isWSS := false
+	isWS := false
 	servers := doc3.Servers
 	for i, server := range servers {
 		parsedURL, err := url.Parse(server.URL)
@@ -744,6 +746,10 @@ func FromV3(doc3 *openapi3.T) (*openapi2.T, error) {
 				isHTTPS = true
 			} else if parsedURL.Scheme == "http" {
 				isHTTP = true
+			} else if parsedURL.Scheme == "wss" {
+				isWSS = true
+			} else if parsedURL.Scheme == "ws" {
+				isWS = true
 			}
 			// The first server is assumed to provide the base path
 			if i == 0 {
@@ -758,6 +764,12 @@ func FromV3(doc3 *openapi3.T) (*openapi2.T, error) {
 	}
 	if isHTTP {
 		doc2.Schemes = append(doc2.Schemes, "http")
+	}
+	if isWSS {
+		doc2.Schemes = append(doc2.Schemes, "wss")
+	}
+	if isWS {
+		doc2.Schemes = append(doc2.Schemes, "ws")
 	}
 
 	for path, pathItem := range doc3.Paths.Map() {
